@@ -249,6 +249,9 @@ def ser_variants(rnd):
         if kind in ('svg', 'png', 'ppm') and rnd.random() < 0.4:
             kw[rnd.choice(['finder_dark', 'data_dark', 'data_light', 'timing_dark', 'alignment_light', 'quiet_zone', 'separator', 'dark_module'])] = \
                 rnd.choice([c for c in COLORS if c is not None])
+        if kind in ('svg', 'png', 'ppm') and rnd.random() < 0.4:
+            # one fixed multi-colour argument set, used again and again on symbols of different size classes
+            kw = dict(finder_dark='darkred', data_dark='navy', version_dark='teal', alignment_dark='gold', dark_module='lime', timing_dark='indigo')
         if kind == 'png' and rnd.random() < 0.3:
             kw['dpi'] = rnd.choice([72, 300])
         if kind == 'svg' and rnd.random() < 0.5:
